@@ -1131,8 +1131,59 @@ func (fa *FA) linLen(s *Sym, mod int) *Lin {
 		if x.K == "nil" {
 			return linConst(0)
 		}
+	case "call":
+		// a module helper whose every return hands back a slice exactly as long as one of its slice parameters
+		// (`func clone(src []T) []T { dst := make([]T, len(src)); copy(dst, src); return dst }`)
+		if c, ok := x.V.(*ssa.Call); ok && !c.Call.IsInvoke() {
+			if g := staticCallee(&c.Call); g != nil && g.Blocks != nil && fa.P.InModule(g) {
+				if i := fa.P.sliceLenParam(g); i >= 0 && i < len(x.Args) {
+					return fa.linSym(lenOf(x.Args[i]), 0)
+				}
+			}
+		}
 	}
 	return linAtom(s)
+}
+
+var sliceLenParamCache = map[*ssa.Function]int{}
+
+// sliceLenParam: the index of the parameter p such that every return of g (single slice result) satisfies
+// len(result) == len(p), or -1.
+func (p *Prog) sliceLenParam(g *ssa.Function) int {
+	if i, ok := sliceLenParamCache[g]; ok {
+		return i
+	}
+	sliceLenParamCache[g] = -1 // recursion guard
+	if g.Signature.Results().Len() != 1 {
+		return -1
+	}
+	if _, ok := g.Signature.Results().At(0).Type().Underlying().(*types.Slice); !ok {
+		return -1
+	}
+	fa := p.FA(g)
+	rets := returnsOf(g)
+	if len(rets) == 0 {
+		return -1
+	}
+	for i, prm := range g.Params {
+		if _, ok := prm.Type().Underlying().(*types.Slice); !ok {
+			continue
+		}
+		// the parameter must not be re-assigned: its Sym is the entry value
+		want := fa.linSym(lenOf(fa.Sym(prm)), 0)
+		all := true
+		for _, rt := range rets {
+			got := fa.linSym(lenOf(fa.Sym(rt.Results[0])), 0)
+			if !got.Equal(want) {
+				all = false
+			}
+		}
+		if all {
+			sliceLenParamCache[g] = i
+			return i
+		}
+	}
+	return -1
 }
 
 func lenOf(x *Sym) *Sym {
